@@ -180,8 +180,6 @@ func VerifH_C08_O4_combine_exec() {
 				want = 1
 			}
 			if r == 0 {
-				verif.Assert(seen[t] >= want, "DBG-missing-"+string(rune('a'+t)))
-				verif.Assert(seen[t] <= want, "DBG-extra-"+string(rune('a'+t)))
 				verif.Assert(seen[t] == want, "every-value-exactly-once/first-round")
 			} else {
 				verif.Assert(seen[t] == want, "every-value-exactly-once/after-restart")
